@@ -5,6 +5,7 @@
   (the object fields across successive runs), instantiated at ℝ.
 -/
 import SnowProofs.Props.C08
+import SnowProofs.Props.C05
 import SnowModel.SnowingRuns
 
 namespace Snow.C13
@@ -882,6 +883,173 @@ theorem nonvacuous :
   exact ⟨e1, by rw [run0DOn_NtCoolEnd]; exact c1, e1', e2⟩
 
 
+/-! ### audit repairs (M10): 0D time axis, discharged profile-length hypothesis, published ice rows,
+fresh object on the repaired `run()` -/
+
+/-- `opcond.tempProfile(dt) + 273.15` has exactly `Nt_exp` samples (C05.profile_length) -/
+theorem shelfK_length (p : SnowIn ℝ) (dt : ℝ) : (p.shelfK dt).length = nSteps p.oc.t_tot dt := by
+  simp [SnowIn.shelfK, Snow.C05.profile_length]
+
+/-- the hypothesis `shelf.length ≤ Nt_exp` of the buffer theorems holds for `Snowing._run_1D()` itself -/
+theorem hlen_run1D (p : SnowIn ℝ) (Nz : ℕ) :
+    (p.shelfK (grid1D p Nz).dt).length ≤ (grid1D p Nz).NtExp := by
+  rw [shelfK_length]; exact le_refl _
+
+/-- **buffer_in_range for `run1D p`** (no side hypothesis) -/
+theorem buffer_in_range_run1D (p : SnowIn ℝ) :
+    ((run1D p).exc = some "IndexError" → (run1D p).stage = "nucleation-row") ∧
+    ((run1DOld p).exc = some "IndexError" → (run1DOld p).stage = "nucleation-row") :=
+  ⟨(buffer_in_range p NzCode false _ (hlen_run1D p NzCode)).2,
+   (buffer_in_range p NzCode true _ (hlen_run1D p NzCode)).2⟩
+
+/-- **history_aligned for `run1D p`** (no side hypothesis) -/
+theorem history_aligned_run1D (p : SnowIn ℝ) (hexc : (run1D p).exc = none) :
+    ∃ rows, (run1D p).hist = some rows ∧
+      rows.size = (run1D p).iSaveEnd + 1 + ((run1D p).iSaveSolid - 1) ∧
+      (∀ r ∈ rows.toList, RowOK (p.shelfK (grid1D p NzCode).dt) (grid1D p NzCode).dt r) ∧
+      StepSorted rows.toList :=
+  history_aligned_1D p NzCode false _ (hlen_run1D p NzCode) hexc
+
+/-- **0D time axis**: entry `j` of `time` is `dt·j` (in hours), `dt = 0.1 s` -/
+theorem time_is_grid_0D (p : SnowIn ℝ) (shelf : List ℝ) (hexc : (run0DOn p shelf).exc = none) :
+    ∃ h, (run0DOn p shelf).hist = some h ∧
+      ∀ j (hj : j < h.time.size), h.time[j] = (1 / 10 : ℝ) * (j : ℝ) / 3600 := by
+  revert hexc
+  unfold run0DOn
+  rcases hc : cool0D p shelf with ⟨_ | Nt, s⟩
+  · intro h; cases h
+  · have hNt : Nt < shelf.length := by
+      have : (cool0D p shelf).1 = some Nt := by rw [hc]
+      rw [cool0D, loopUntil_fst_some_iff] at this; exact this.1
+    dsimp only
+    split
+    · intro h; cases h
+    · intro _
+      refine ⟨_, rfl, ?_⟩
+      intro j hj
+      simp only [Array.getElem_map, dt0D, lit_real, ofNat'_real, Nat.cast_ofNat]
+      by_cases hlt : j < Nt
+      · rw [Array.getElem_append_left (by simpa using hlt)]
+        simp only [Array.getElem_ofFn]; norm_num
+      · have hge : Nt ≤ j := by omega
+        rw [Array.getElem_append_right (by simpa using hge)]
+        simp only [Array.getElem_ofFn, Array.size_ofFn]
+        have : ((j - Nt : ℕ) : ℝ) = (j : ℝ) - (Nt : ℝ) := by push_cast [hge]; ring
+        rw [this]; norm_num; ring
+
+/-- **0D**: the time axis is non-decreasing -/
+theorem time_nondecreasing_0D (p : SnowIn ℝ) (shelf : List ℝ) (hexc : (run0DOn p shelf).exc = none) :
+    ∃ h, (run0DOn p shelf).hist = some h ∧
+      ∀ i j (hi : i < h.time.size) (hj : j < h.time.size), i ≤ j → h.time[i] ≤ h.time[j] := by
+  obtain ⟨h, hh, hg⟩ := time_is_grid_0D p shelf hexc
+  refine ⟨h, hh, ?_⟩
+  intro i j hi hj hij
+  rw [hg i hi, hg j hj]
+  have : (i : ℝ) ≤ (j : ℝ) := by exact_mod_cast hij
+  linarith
+
+/-- frozen-water fraction as a function of a PUBLISHED 1D ice-fraction row `w = m_ice/mass` -/
+noncomputable def sigmaOfIce (p : SnowIn ℝ) (g : Grid1D ℝ) (w : Array ℝ) : ℝ :=
+  (1 / aget g.z (g.Nz - 1)) * simpsonA (w.map (· * p.const.mass)) g.z / (p.const.mass - p.const.mass_solute)
+
+theorem sg_of_ice_row_1D (p : SnowIn ℝ) (g : Grid1D ℝ) (hm : p.const.mass ≠ 0) (stride iEnd : ℕ) (tNuc : ℝ)
+    (i : ℕ) (s : Solid1D ℝ) (x : ℝ) :
+    (solidStep1D p g stride iEnd tNuc i s x).sg = sigmaOfIce p g (solidStep1D p g stride iEnd tNuc i s x).w := by
+  -- both are computed from the same ice-mass field `M`: sg from `M`, `w = M / mass`
+  obtain ⟨M, h1, h2⟩ : ∃ M : Array ℝ,
+      (solidStep1D p g stride iEnd tNuc i s x).sg =
+        (1 / aget g.z (g.Nz - 1)) * simpsonA M g.z / (p.const.mass - p.const.mass_solute) ∧
+      (solidStep1D p g stride iEnd tNuc i s x).w = M.map (· / p.const.mass) := by
+    refine ⟨_, ?_, rfl⟩
+    simp only [solidStep1D, one_real]
+  rw [h1, h2, sigmaOfIce, Array.map_map]
+  have : ((fun x => x * p.const.mass) ∘ fun x => x / p.const.mass) = id := by
+    funext y; simp [div_mul_cancel₀ _ hm]
+  rw [this, Array.map_id]
+
+/-- **the published solidification rows are the loop states**: every row the solidification loop
+saved carries the ice fractions and the field of the step it was written at -/
+theorem published_solid_rows_1D (p : SnowIn ℝ) (Nz : ℕ) (shelf : List ℝ) (iEnd : ℕ) :
+    ∀ r ∈ (solFin1D p Nz shelf iEnd).buf.toList,
+      ∃ j, j < (shelf.drop iEnd).length ∧ r.step = iEnd + j ∧
+        r.ice = (solSt1D p Nz shelf iEnd j).w ∧ r.temp = (solSt1D p Nz shelf iEnd j).T.map (· - 273.15) := by
+  have := saved_rows_from_states (solStep1D' p Nz iEnd) (fun s => s.buf)
+    (fun s' i x => ({ step := iEnd + i, time := (grid1D p Nz).dt * ofNat' iEnd + (grid1D p Nz).dt * ofNat' i,
+                      shelf := x - lit 27315 2, temp := s'.T.map (· - lit 27315 2), ice := s'.w } : Row ℝ))
+    (by
+      intro i s x
+      simp only [solStep1D', solidStep1D, saveRow]
+      split_ifs
+      · right; rfl
+      · left; rfl
+      · left; rfl)
+    (shelf.drop iEnd) (solInit1D p Nz shelf iEnd) rfl
+  intro r hr
+  obtain ⟨j, hj, e⟩ := this r hr
+  refine ⟨j, hj, by rw [e], by rw [e]; rfl, by rw [e]; simp only [lit27315]; rfl⟩
+
+/-- **t_sol on the published history (1D)**: in a completed run with `mass ≠ 0`, every published
+solidification row written at solidification step `j` has an integrated frozen fraction – computed
+from ITS `iceMassFraction` entries – below 0.9 if `j < i_sol`, and at least 0.9 if `j = i_sol`. -/
+theorem tsol_first_90_published_1D (p : SnowIn ℝ) (Nz : ℕ) (old : Bool) (shelf : List ℝ) (hm : p.const.mass ≠ 0)
+    (iEnd iS : ℕ) (h1 : (run1DOn p Nz old shelf).NtCoolEnd = some iEnd)
+    (h2 : (run1DOn p Nz old shelf).NtSolEnd = some iS) :
+    ∀ r ∈ (solFin1D p Nz shelf iEnd).buf.toList, ∀ j, r.step = iEnd + j →
+      (j < iS → sigmaOfIce p (grid1D p Nz) r.ice < 0.9) ∧
+      (j = iS → 0.9 ≤ sigmaOfIce p (grid1D p Nz) r.ice) := by
+  obtain ⟨hsol, _⟩ := result_times_1D p Nz old shelf iEnd iS h1 h2
+  obtain ⟨_, hge, hlt⟩ := (tsol_first_90_1D p Nz shelf iEnd iS).mp hsol
+  intro r hr j hstep
+  obtain ⟨j', hj', hst, hice, _⟩ := published_solid_rows_1D p Nz shelf iEnd r hr
+  have hjj : j' = j := by omega
+  subst hjj
+  have hsg : (solSt1D p Nz shelf iEnd j').sg = sigmaOfIce p (grid1D p Nz) (solSt1D p Nz shelf iEnd j').w := by
+    unfold solSt1D
+    rw [← stateAt_eq_prefState]
+    exact stateAt_post (solStep1D' p Nz iEnd)
+      (fun s => s.sg = sigmaOfIce p (grid1D p Nz) s.w) _ _
+      (fun i s x => sg_of_ice_row_1D p (grid1D p Nz) hm _ _ _ i s x) j' hj'
+  rw [hice, ← hsg]
+  exact ⟨fun h => hlt j' h, fun h => by rw [h]; exact hge⟩
+
+/-- **fresh object on the run() now in /repo** (`SnowObj.runFixed`: outputs cleared first and again on
+an exception), 0D -/
+theorem complete_or_raise_fresh_fixed_0D (p : SnowIn ℝ) (shelf : List ℝ) (o : SnowObj (Stats0D ℝ) (Hist0D ℝ)) :
+    let o' := o.runFixed (out0D (run0DOn p shelf))
+    ((run0DOn p shelf).exc = none ∧
+        ∃ st h a b, o'.results = .ok (some st) ∧ st.t_sol = some a ∧ st.t_fr = some b ∧
+          o'.history = .ok (some h)) ∨
+    ((run0DOn p shelf).exc ≠ none ∧ o'.results = .error "AssertionError" ∧
+        o'.history = .error "AssertionError") := by
+  intro o'
+  rcases complete_or_raise_0D p shelf with ⟨h1, st, h, a, b, hst, ha, hb, hh⟩ | ⟨h1, _, _⟩
+  · left
+    exact ⟨h1, st, h, a, b, by simp [o', SnowObj.runFixed, SnowObj.results, out0D, h1, hst], ha, hb,
+      by simp [o', SnowObj.runFixed, SnowObj.history, out0D, h1, hh]⟩
+  · right
+    exact ⟨by rw [h1]; simp, by simp [o', SnowObj.runFixed, SnowObj.results, out0D, h1],
+      by simp [o', SnowObj.runFixed, SnowObj.history, out0D, h1]⟩
+
+/-- … and 1D; the object's earlier history `o` is arbitrary (fresh or reused) -/
+theorem complete_or_raise_fresh_fixed_1D (p : SnowIn ℝ) (Nz : ℕ) (old : Bool) (shelf : List ℝ)
+    (o : SnowObj (Stats1D ℝ) (Array (Row ℝ))) :
+    let o' := o.runFixed (out1D (run1DOn p Nz old shelf))
+    ((run1DOn p Nz old shelf).exc = none ∧
+        ∃ st h a b, o'.results = .ok (some st) ∧ st.t_sol = some a ∧ st.t_fr = some b ∧
+          o'.history = .ok (some h)) ∨
+    ((run1DOn p Nz old shelf).exc ≠ none ∧ o'.results = .error "AssertionError" ∧
+        o'.history = .error "AssertionError") := by
+  intro o'
+  rcases complete_or_raise_1D p Nz old shelf with ⟨h1, st, h, a, b, hst, ha, hb, hh⟩ | ⟨h1, _, _⟩
+  · left
+    exact ⟨h1, st, h, a, b, by simp [o', SnowObj.runFixed, SnowObj.results, out1D, h1, hst], ha, hb,
+      by simp [o', SnowObj.runFixed, SnowObj.history, out1D, h1, hh]⟩
+  · right
+    have hne : (run1DOn p Nz old shelf).exc ≠ none := by rcases h1 with h1 | h1 <;> rw [h1] <;> simp
+    refine ⟨hne, ?_, ?_⟩
+    · rcases h1 with h1 | h1 <;> simp [o', SnowObj.runFixed, SnowObj.results, out1D, h1]
+    · rcases h1 with h1 | h1 <;> simp [o', SnowObj.runFixed, SnowObj.history, out1D, h1]
+
 /-! ## 2D model (`SnowModel/Snowing2D.lean`)
 
 `S2D.run` returns `Except String (Result α)`: a complete result (every statistic and all four
@@ -1297,5 +1465,34 @@ theorem time_nondecreasing_2D (p : Par ℝ) (f : Flags) (hdt : 0 ≤ (mkCtx p f)
   refine (aligned2_time_sorted hdt hal hso).imp ?_
   intro a b hab
   exact div_le_div_of_nonneg_right hab (by norm_num)
+
+
+open Snow.S2D in
+/-- **t_sol on the published history (2D)**: every row the 2D solidification loop saved was written at
+some solidification step `j` from that step's state: its `iceMassFraction` entries are `iceFrac` of that
+state's field, and the fraction the 90 % test of step `j` used is `sigmaOf` of exactly these entries. -/
+theorem published_solid_rows_2D (p : Par ℝ) (f : Flags) (T0C : ℝ) (prof : List ℝ) (NtExp iEnd : ℕ) :
+    ∀ r ∈ (solFin2D (mkCtx p f) NtExp prof iEnd (st2D p f T0C prof NtExp iEnd)).rows.toList,
+      ∃ j, j < ((shelfK prof).drop iEnd).length ∧
+        r.ice = iceFrac (mkCtx p f) (solSt2D p f T0C prof NtExp iEnd j).T ∧
+        (solSt2D p f T0C prof NtExp iEnd j).sg = sigmaOf (mkCtx p f) r.ice := by
+  have := saved_rows_from_states (solStep2D (mkCtx p f) NtExp iEnd) (fun s => s.rows)
+    (fun s' i x => S2D.Row.mk ((mkCtx p f).dt * ofNat' iEnd + (mkCtx p f).dt * ofNat' i) (x - kelvin)
+      (s'.T.map (· - kelvin)) s'.w)
+    (by
+      intro i s x
+      simp only [solStep2D, solStepSt]
+      split_ifs
+      · right; rfl
+      · left; rfl)
+    ((shelfK prof).drop iEnd) (solInit2D (mkCtx p f) (st2D p f T0C prof NtExp iEnd)) rfl
+  intro r hr
+  obtain ⟨j, hj, e⟩ := this r hr
+  have hpost := stateAt_post (solStep2D (mkCtx p f) NtExp iEnd)
+    (fun s => s.w = iceFrac (mkCtx p f) s.T ∧ s.sg = sigmaOf (mkCtx p f) s.w) _
+    (solInit2D (mkCtx p f) (st2D p f T0C prof NtExp iEnd)) (fun _ _ _ => ⟨rfl, rfl⟩) j hj
+  refine ⟨j, hj, ?_, ?_⟩
+  · rw [e]; exact hpost.1
+  · rw [e]; exact hpost.2
 
 end Snow.C13
